@@ -12,6 +12,7 @@ from . import world
 from .codec import canon, dec, key
 
 REF_MEMO = {}
+REF_MEMO_CAP = 30000
 REF_STATS = {"computed": 0, "hits": 0, "wall": 0.0}
 
 
@@ -64,6 +65,8 @@ def reference(mini, timeout=900.0):
     if res[0] != "ok":
         raise world.ChildFailure("reference run failed: %r" % (res[1:3],))
     outs = [r["out"] for r in res[1]["log"]]
+    if len(REF_MEMO) >= REF_MEMO_CAP:
+        REF_MEMO.clear()      # bounded memory in long batches; a cleared memo only costs recomputation
     REF_MEMO[k] = (outs, dt)
     return REF_MEMO[k]
 
